@@ -36,7 +36,9 @@ None == -1
 S == "c"                      \* the connection's name in monitor events
 Ms(t) == t * 1000
 Obs(r) == mon' = MonEv(mon, r)
-Stim(s) == hist' = Append(hist, s)
+\* every recorded stimulus carries the projection the real TransportService must show afterwards
+\* (handle activity and whether the tracker holds an entry); must be the last conjunct of an action
+Stim(s) == hist' = Append(hist, s @@ [hs |-> hs', trk |-> [q \in PP |-> last'[q] # None]])
 
 Init ==
   /\ now = 0
@@ -75,8 +77,21 @@ Open(q, rem) ==
             /\ hs' = [hs EXCEPT ![q] = "active"]                       \* try_upgrade
        ELSE UNCHANGED <<last, tmr, hs>>
   /\ IF q \in K THEN Obs([e |-> "open_begin", s |-> S, t |-> Ms(now), rem |-> rem]) ELSE UNCHANGED mon
-  /\ Stim([a |-> IF rem THEN "ropen" ELSE "open", q |-> q, id |-> nid, at |-> now])
   /\ UNCHANGED <<now, subs, closed>>
+  /\ Stim([a |-> IF rem THEN "ropen" ELSE "open", q |-> q, id |-> nid, at |-> now])
+
+\* TransportService::open_substream of a keep-alive protocol fails synchronously with ChannelClogged (the
+\* connection's command channel is full).  Order of the code: permit, substream_activity, try_upgrade,
+\* then the send that fails (the permit is dropped with the error).  Mutant "activity-after-send": the
+\* activity is recorded only after a successful send, the upgrade still before it.
+OpenClogged(q) ==
+  /\ ~closed /\ nid < MaxSub /\ Strong /\ q \in K
+  /\ nid' = nid + 1
+  /\ IF Mutant = "activity-after-send" THEN UNCHANGED <<last, tmr>> ELSE Activity(q)
+  /\ hs' = [hs EXCEPT ![q] = "active"]
+  /\ Obs([e |-> "open_clogged", s |-> S, t |-> Ms(now)])
+  /\ UNCHANGED <<now, opening, subs, closed>>
+  /\ Stim([a |-> "clog", q |-> q, at |-> now])
 
 \* the negotiation succeeded: SubstreamOpened reaches the protocol, the opening permit is dropped;
 \* substreams of K protocols carry a lifetime permit
@@ -90,22 +105,23 @@ Opened(o) ==
             /\ Obs([e |-> "open_ok", s |-> S, t |-> Ms(now), tb |-> Ms(o.at), rem |-> o.rem])
        ELSE /\ UNCHANGED <<last, tmr, hs, mon>>
             /\ subs' = IF Mutant = "ping-holds-permit" THEN subs \cup {[q |-> o.q, id |-> o.id]} ELSE subs
-  /\ UNCHANGED <<now, closed, nid, hist>>
+  /\ UNCHANGED <<now, closed, nid>>
+  /\ Stim([a |-> "opened", q |-> o.q, id |-> o.id, rem |-> o.rem, at |-> now])
 
 OpenFails(o) ==
   /\ ~closed /\ o \in opening
   /\ opening' = opening \ {o}
   /\ IF o.q \in K THEN Obs([e |-> "open_fail", s |-> S, t |-> Ms(now), rem |-> o.rem]) ELSE UNCHANGED mon
-  /\ Stim([a |-> "fail", id |-> o.id, at |-> now])
   /\ UNCHANGED <<now, hs, last, tmr, subs, closed, nid>>
+  /\ Stim([a |-> "fail", q |-> o.q, id |-> o.id, rem |-> o.rem, at |-> now])
 
 Drop(x) ==
   /\ ~closed /\ x \in subs /\ x.q \in K
   /\ subs' = IF Mutant = "permit-leak" THEN subs ELSE subs \ {x}
   \* begin and done coincide in the model
   /\ mon' = MonEv(MonEv(mon, [e |-> "drop_begin", s |-> S, t |-> Ms(now)]), [e |-> "drop_done", s |-> S, t |-> Ms(now)])
-  /\ Stim([a |-> "drop", id |-> x.id, at |-> now])
   /\ UNCHANGED <<now, hs, last, tmr, opening, closed, nid>>
+  /\ Stim([a |-> "drop", id |-> x.id, at |-> now])
 
 \* KeepAliveTracker::poll_next for a due timer, then TransportService::poll_next downgrades
 TimerFires(q) ==
@@ -116,7 +132,10 @@ TimerFires(q) ==
        ELSE /\ tmr' = [tmr EXCEPT ![q] = None]
             /\ last' = [last EXCEPT ![q] = None]
             /\ hs' = [hs EXCEPT ![q] = "inactive"]
-  /\ UNCHANGED <<now, opening, subs, closed, nid, mon, hist>>
+  /\ UNCHANGED <<now, opening, subs, closed, nid, mon>>
+  \* the expiry that downgrades the handle is part of the schedule replayed on the real service
+  /\ IF last[q] # None /\ ~(now - last[q] < TT /\ Mutant # "no-rearm")
+       THEN Stim([a |-> "expire", q |-> q, at |-> now]) ELSE UNCHANGED hist
 
 \* protocol_set.next() yields None: "protocols have disconnected, closing connection"
 LoopExit ==
@@ -127,7 +146,7 @@ LoopExit ==
 
 Next ==
   \/ Tick \/ LoopExit
-  \/ \E q \in PP : TimerFires(q) \/ Open(q, FALSE) \/ (q \in K /\ Open(q, TRUE))
+  \/ \E q \in PP : TimerFires(q) \/ Open(q, FALSE) \/ (q \in K /\ Open(q, TRUE)) \/ OpenClogged(q)
   \/ \E o \in opening : Opened(o) \/ OpenFails(o)
   \/ \E x \in subs : Drop(x)
 
@@ -138,6 +157,9 @@ MonOK == mon.bad = ""
 \* stated directly on the model state as well
 KOpening == {o \in opening : o.q \in K}
 NotWhileBusy == closed => ({x \in subs : x.q \in K} = {} /\ KOpening = {})
+\* an Active handle is always covered by a tracker entry and a pending timer: it will be released
+\* once the protocol is idle (idle => eventually released)
+ActiveTracked == \A q \in PP : hs[q] = "active" => (last[q] # None /\ tmr[q] # None)
 \* at the horizon an idle connection is closed (liveness as a bounded-time obligation)
 ClosedAtHorizon == (now = Horizon /\ ~Urgent /\ subs = {} /\ opening = {} /\ mon.c[S].idleSince + Ms(TT) < Ms(Horizon)) => closed
 
